@@ -262,6 +262,9 @@ func (p *Path) concretize(fr *frame, s sym) value {
 		case types.Bool:
 			return st.BoolC(d.V == 1)
 		}
+		if s.T.Sort.K == smt.KInt {
+			return st.IntC(d.V)
+		}
 		return st.BVC(kindWidth(s.K), uint64(d.V))
 	}
 	nExcluded := 0
@@ -306,9 +309,11 @@ func (p *Path) concretize(fr *frame, s sym) value {
 		}
 		mv := vals[v.S]
 		d := Decision{K: 'e'}
-		switch s.K {
-		case types.String:
+		switch {
+		case s.K == types.String:
 			d.S = mv.S
+		case s.T.Sort.K == smt.KInt:
+			d.V = mv.I
 		default:
 			d.V = int64(mv.U)
 		}
